@@ -135,15 +135,17 @@ where
         for (part_name, header) in &soap_operation.headers {
             let field_name = as_field_name(part_name);
             let rust_type = rust_type_of_part(header)?;
+            // on the wire a header entry is the element the part refers to, not the name of the part
+            let xml_name = header.rust_type.xml_name().ok_or(WriterError::InvalidReference)?;
 
             if let Some(namespace) = header.in_namespace.as_ref() {
                 let abbreviation = namespace.abbreviation.as_str();
                 writeln!(
                     writer,
-                    "#[yaserde(prefix = \"{abbreviation}\", rename = \"{part_name}\")]"
+                    "#[yaserde(prefix = \"{abbreviation}\", rename = \"{xml_name}\")]"
                 )?;
             } else {
-                writeln!(writer, "    #[yaserde(rename = \"{part_name}\")]")?;
+                writeln!(writer, "    #[yaserde(rename = \"{xml_name}\")]")?;
             }
 
             // todo: we should check if the "mustUnderstand" == 1 to make the field required
